@@ -569,4 +569,66 @@ Section Symbolic.
         destruct (hwalk s1 t0 r0) as [[s2 o2] orcs2] eqn:W;
         inversion H; subst; (let E := fresh in pose proof (IH _ _ _ _ extra W) as E; cbn in E; rewrite E) end; reflexivity.
   Qed.
+
+  (* hrecv is Conn.recv fed dgram_oracles: the symbolic step IS the composed step *)
+  Theorem hrecv_is_recv_proof : forall (s s' : hstate) now d o,
+    hrecv s now d = (s', o) -> recv (h_conn s) now d (dgram_oracles s now d) = (h_conn s', o).
+  Proof.
+    intros s s' tm d o H. unfold Handshake.hrecv in H. unfold recv, Handshake.dgram_oracles.
+    destruct (keyless_refuses (h_conn s) (d_hdr d)); [inversion H; subst; reflexivity|].
+    destruct (open_dgram (c_key (h_conn s)) d) as [ms|]; [|inversion H; subst; reflexivity].
+    destruct (bf_insert (c_bf_pkt (h_conn s)) (h_seq (d_hdr d))) as [bf|]; [|inversion H; subst; reflexivity].
+    destruct (handle_ack_bits _ (d_hdr d)) as [c1 o1].
+    destruct (hwalk (s <| h_conn := c1 |>) tm ms) as [[s2 o2] orcs] eqn:W.
+    pose proof (hwalk_recv_msgs _ _ _ _ _ _ [] W) as E. rewrite app_nil_r in E. cbn in E.
+    cbn [snd]. rewrite E. inversion H; subst. reflexivity.
+  Qed.
+
+  (* (3) symbolic form, one message: handler.connect only for a challenge response that carries
+     the token of the temp-pool entry of this address (TSelf: the token this connection issued) *)
+  Theorem connect_only_with_issued_token_proof : forall (s : hstate) ty m c' o,
+    hs_step s ty m = (c', o) -> In OHandlerConnect o ->
+    c_server (h_conn s) = true /\ ty = CHALLENGE_RESP /\
+    exists tok, m = MChallenge tok /\ temp_token s = Some tok /\
+      (h_temp s = TSelf -> tok = c_token (h_conn s)) /\
+      c_status c' = CONNECTED /\ c_key c' = c_key (h_conn s) /\ c_token c' = c_token (h_conn s).
+  Proof.
+    intros s ty m c' o H Hin.
+    assert (X : existsb is_connect o = true) by (apply existsb_exists; exists OHandlerConnect; auto).
+    unfold Handshake.hs_step in H.
+    destruct (recv_handshake_facts _ _ _ _ _ H) as (_ & _ & _ & D).
+    destruct (D X) as (Sv & Ty & P & TT & K & T & St). subst ty.
+    split; auto. split; auto.
+    unfold Handshake.oracle_of in P, TT. rewrite Sv in P, TT.
+    destruct m as [cp v pd|rp p sg|tok|code]; cbn in P, TT; try discriminate.
+    - exists tok. repeat split; auto. intros E. unfold temp_token in TT. rewrite E in TT. congruence.
+  Qed.
+
+  (* (2) the honest three-message run: equal keys, equal tokens, one connect *)
+  Theorem honest_agree_proof : forall a b root salt tok rest pinned,
+    pinned = None \/ pinned = Some (pub root) ->
+    let C0 := client0 SIG a pinned in
+    let S0 := server0 SIG b root ((salt, tok) :: rest) in
+    (* 1: the server-side connection receives ClientHello(pub a, version 1, padding) *)
+    let '(sc1, o1) := hs_step S0 CLIENT_HELLO (MClientHello (pub a) 1 true) in
+    let S1 := S0 <| h_conn := sc1 |> in
+    let p := {| sp_pub := pub b; sp_salt := salt; sp_token := tok |} in
+    (* 2: the client receives the ServerHello the server queued *)
+    let '(cc1, o2) := hs_step C0 SERVER_HELLO (MServerHello (pub root) p (sign root p)) in
+    (* 3: the server receives the ChallengeResp the client queued *)
+    let '(sc2, o3) := hs_step S1 CHALLENGE_RESP (MChallenge (c_token cc1)) in
+    map m_payload (c_outgoing sc1) = [ser_shello (pub root) p (sign root p)] /\
+    map m_payload (c_outgoing cc1) = [ser_chal tok] /\
+    c_key cc1 = Some (kdf (dh a (pub b)) salt) /\ c_key sc2 = c_key cc1 /\
+    c_token cc1 = tok /\ c_token sc2 = tok /\
+    c_status cc1 = CONNECTED /\ c_status sc2 = CONNECTED /\ o3 = [OHandlerConnect].
+  Proof.
+    intros a b root salt tok rest pinned Pin.
+    pose proof (proj2 (verify_sign root (sign root {| sp_pub := pub b; sp_salt := salt; sp_token := tok |})
+                                   {| sp_pub := pub b; sp_salt := salt; sp_token := tok |}) eq_refl) as V.
+    destruct Pin as [-> | ->]; cbn zeta;
+      unfold Handshake.hs_step, Handshake.oracle_of, recv_handshake, check_key; cbn;
+      rewrite V; cbn; rewrite Z.eqb_refl; cbn; rewrite (dh_comm a b); repeat split; reflexivity.
+  Qed.
+
 End Symbolic.
